@@ -108,6 +108,40 @@ CHECKS: dict[str, tuple[str, str, str, str]] = {
         "Trusted: ast, sa/tab.py, sa/relang.py, sa/fold.py. Deprecated/bad classification of LICENSES/ entries is in C01-R3.",
         "DESIGN.md §3 C06",
     ),
+    "C13": (
+        "sibling-agreement analysis of the formatters (rendering loops + guard formulas) + truth tables + exit tabulation",
+        "For format_plain, format_lines(+_subset) and the JSON dictionary: every category the verdict consults is"
+        " rendered by a loop over that attribute whose enclosing guards are only the category's own truthiness or `not"
+        " is_compliant` (guards compared as boolean formulas); JSON counters derive from the same attributes as the"
+        " JSON lists; the plain verdict sentence follows is_compliant; ProjectSubsetReport's verdict, filters and"
+        " propagation agree with ProjectReport's on the four shared categories and with what format_lines_subset"
+        " prints; lint-file exits 0 iff compliant on every path and rejects outside files before generating."
+        " Textual equality of rendered paths is not decided.",
+        "Trusted: ast, sa/tab.py.",
+        "DESIGN.md §3 C13",
+    ),
+    "C18": (
+        "path tabulation of the document writer + structural pairing + checksum/ID dataflow + decision tables",
+        "Decides on every path of bill_of_materials that both loops range over the same sorted list, that each report"
+        " gets one DESCRIBES line and one File section carrying the same spdx_id, the mandatory tag set, <text>"
+        " wrapping and the LicenseRef section; that the checksum is hashlib.sha1 over every chunk of the file opened"
+        " in binary mode and is never disabled by the spdx command; that SPDXID derives from name and checksum; the"
+        " LicenseConcluded table (NOASSERTION / NONE / AND of parenthesised expressions, simplified) and the creator"
+        " requirement. SHA-1 values and boolean.py's simplify() are library semantics and not decided.",
+        "Trusted: ast, sa/tab.py. The file set is decided by C01/C03.",
+        "DESIGN.md §3 C18",
+    ),
+    "C19": (
+        "decision/effect tabulation with exceptional edges (typestate: refusal dominates writes; fetch before open)",
+        "Decides on every path of put_license_in_file that each file-system effect on the destination is dominated by"
+        " the exists() refusal, that the network fetch completes before the file is opened (a failed transfer leaves"
+        " nothing), that the LicenseRef branch reaches no network call and that download_license is the only network"
+        " caller; and for the command: usage errors first, '+' stripped before use, --all = report.missing_licenses,"
+        " every failure handler sets a non-zero code and stays in the loop, exit with the accumulated code, default"
+        " destination LICENSES/<id>.txt. Other network faults are not modelled.",
+        "Trusted: ast, sa/tab.py, syntactic table of Path/shutil mutators.",
+        "DESIGN.md §3 C19",
+    ),
 }
 
 PENDING_REASON = "check not implemented yet (build in progress; see DESIGN.md §7)"
